@@ -77,6 +77,9 @@ public:
   typedef std::vector<CPPManifest *> ManifestStack;
   std::map<std::string, ManifestStack> _manifest_stack;
 
+  // Function-like macros that were found to expand to themselves without end.
+  mutable std::set<const CPPManifest *> _runaway_manifests;
+
   std::vector<CPPFile::Source> _quote_include_kind;
   DSearchPath _quote_include_path;
   DSearchPath _angle_include_path;
